@@ -45,6 +45,8 @@ def run(rep, tier):
     boundary_tables(rep, F)
     exactness(rep, F)
     dimension_tables(rep, F)
+    from . import c05
+    c05.winding_table(rep, F, rule="R1.7")
 
 
 # ------------------------------------------------------------------------------------------------
